@@ -163,6 +163,14 @@ def c11_gen_text():
     in_package_src = ast.unparse(inpk[0].body[-1].value)
     subp = find_function("gapic/schema/api.py", "API.subpackages")
     subp_elts = [ast.unparse(n.elt) for n in ast.walk(subp) if isinstance(n, ast.SetComp)]
+    def assigned(fn, name):
+        vals = [ast.unparse(n.value) for n in ast.walk(fn) if isinstance(n, ast.Assign) and len(n.targets) == 1
+                and isinstance(n.targets[0], ast.Name) and n.targets[0].id == name]
+        if len(vals) != 1:
+            raise ExtractError(f"{fn.name}: expected one assignment to {name}")
+        return vals[0]
+    package_exprs = [assigned(find_function("gapic/cli/generate.py", "generate"), "package"),
+                     assigned(find_function("gapic/schema/naming.py", "Naming.build"), "root_package")]
     sample_name = module_assign("gapic/samplegen/samplegen.py", "DEFAULT_TEMPLATE_NAME")
     flags = sorted(module_assign("gapic/utils/options.py", "OPT_FLAGS", "Options"))
     prefix = module_assign("gapic/utils/options.py", "PYTHON_GAPIC_PREFIX", "Options")
@@ -176,6 +184,7 @@ def c11_gen_text():
              f"Definition kwlist : list string := {coq.slist(interpreter_kwlist())}.",
              f"Definition sample_template_name : string := {coq.s(sample_name)}.",
              f"Definition invalid_module_extra : list string := {coq.slist(sorted(extra))}.",
+             f"Definition package_exprs : list string := {coq.slist(package_exprs)}.",
              f"Definition sanitize_consts : list string := {coq.slist(sanitize_consts)}.",
              f"Definition sanitize_tests : list string := {coq.slist(sanitize_tests)}.",
              f"Definition file_to_generate_exprs : list string := {coq.slist(ftg)}.",
